@@ -126,17 +126,18 @@ struct FcPqAdapter
 
 // A heap buffer whose capacity is exactly what was asked for (like initialized_dynamic_buffer with Exp2 = false),
 // with checked indexing: an access outside the array is a violation (memory safety is a precondition of C11).
-template <typename T>
+// Exp2 = true rounds the size up to a power of two like the default initialized_dynamic_buffer does.
+template <typename T, bool Exp2 = false>
 class checked_buffer
 {
 public:
     typedef T value_type;
-    static constexpr const bool c_bExp2 = false;
-    template <typename Q, typename A = void, bool E = false> struct rebind { typedef checked_buffer<Q> other; };
+    static constexpr const bool c_bExp2 = Exp2;
+    template <typename Q, typename A = void, bool E = false> struct rebind { typedef checked_buffer<Q, Exp2> other; };
 private:
     std::vector<T> buf_;
 public:
-    explicit checked_buffer( size_t n ): buf_( n ) {}
+    explicit checked_buffer( size_t n ): buf_( Exp2 ? cds::beans::ceil2( n ) : n ) {}
     checked_buffer( checked_buffer const& ) = delete;
     T& operator[]( size_t i )
     {
@@ -147,7 +148,7 @@ public:
     size_t capacity() const noexcept { return buf_.size(); }
     void zeroize() {}
     T* buffer() noexcept { return buf_.data(); }
-    size_t mod( size_t idx ) { return idx % capacity(); }
+    size_t mod( size_t idx ) { return Exp2 ? ( idx & ( capacity() - 1 )) : idx % capacity(); }
 };
 
 std::vector<Scenario> g_scen;
@@ -170,8 +171,15 @@ void add_family( std::string const& base, int cap, std::vector<std::vector<long>
       g_scen.push_back( make_scenario<Adapter>( base, p, PCfg{ 3, cap }, step == 1 ? 0 : 1, bq3, bt3 )); }
 }
 
+// the default power-of-two heap array, with checked indexing (an overflow of the real initialized_dynamic_buffer corrupts the
+// malloc heap: the worker dies at some later free() and the schedule does not reproduce); the real buffer runs in the ASan unit
+#ifdef PQ_REAL_BUFFER
 struct ms_traits: public cc::mspriority_queue::traits { typedef std::less<long> less; };
 struct ms_traits_mutex: public cc::mspriority_queue::traits { typedef std::less<long> less; typedef cds_verif::mutex lock_type; };
+#else
+struct ms_traits: public cc::mspriority_queue::traits { typedef std::less<long> less; typedef checked_buffer<char, true> buffer; };
+struct ms_traits_mutex: public cc::mspriority_queue::traits { typedef std::less<long> less; typedef cds_verif::mutex lock_type; typedef checked_buffer<char, true> buffer; };
+#endif
 struct ms_traits_chk: public cc::mspriority_queue::traits { typedef std::less<long> less; typedef checked_buffer<char> buffer; };
 struct fc_traits_m: public cc::fcpqueue::traits { typedef cds_verif::mutex lock_type; };
 
